@@ -68,16 +68,21 @@ def make_fn(order, anns, retann, checker, spelling, arr, names=None):
     return f
 
 
-def make_dc(order, anns, checker, names=None):
+def make_dc(order, anns, checker, names=None, sub=False):
+    """a jaxtyped dataclass with the given fields; sub=True: declared as a subclass of another (field-less) jaxtyped
+    dataclass - it has its own generated __init__, which must be checked like any other"""
     st = L()
     names = names or PNAMES
-    key = ("dc", tuple(order), tuple(anns), checker, tuple(names))
+    key = ("dc", tuple(order), tuple(anns), checker, tuple(names), sub)
     c = _fn_cache.get(key)
     if c is not None:
         return c
     A = st["np"].ndarray
     g = {"dataclasses": dataclasses}
-    lines = ["@dataclasses.dataclass", "class D:"]
+    if sub:
+        exec("@dataclasses.dataclass\nclass B:\n    pass\n", g)
+        g["B"] = st["jaxtyped"](typechecker=st["checkers"][checker])(g["B"])
+    lines = ["@dataclasses.dataclass", "class D(B):" if sub else "class D:"]
     for i in order:
         g[f"A{i}"] = st["Float"][A, anns[i]]
         lines.append(f"    {names[i]}: A{i}")
@@ -193,6 +198,11 @@ def run_call_variants(case, *, checkers=("typeguard", "beartype"), spellings=("n
             D = make_dc(list(range(n)), anns, ck, names)
             v = classify(D, arrs, {}, "full")
             v["desc"] = f"{ck}/dataclass/pos"
+            v["level"] = "verdict"
+            variants.append(v)
+            D = make_dc(list(range(n)), anns, ck, names, sub=True)
+            v = classify(D, arrs, {}, "full")
+            v["desc"] = f"{ck}/dataclass-subclass/pos"
             v["level"] = "verdict"
             variants.append(v)
     if stack_switch:
